@@ -153,6 +153,7 @@ package websocket
 //@ ghost local Conn.gMsg0 : Int
 //@ ghost local Conn.gClosed0 : Bool
 //@ ghost local Conn.gComp0 : Bool
+//@ ghost local Conn.gNFOk : Bool
 //@ pred isData(op int) := op == 0 || op == 1 || op == 2
 // pay(c, hl, j): payload byte j of the frame at the head of the cache as it was when the reader took the lock (hl = header length); unmasked with the frame's own key if the frame is masked
 //@ pred pay(c *Conn, hl int, j int) := ite(c.gCRow[c.gCOff + 1] >= 128, xor8(c.gCRow[c.gCOff + hl + j], c.gCRow[c.gCOff + hl - 4 + m4(j)]), c.gCRow[c.gCOff + hl + j])
@@ -182,6 +183,8 @@ package websocket
 //@   ensures dlvnew: ok && err == nil && message != nil && !ite(c.gType0 == 0, compress, c.gComp0) && !c.gClosed0 ==> len(*message) == c.gMLen + len(body) && (forall q int {mem(*message, q)} :: off(*message) + c.gMLen <= q && q < off(*message) + len(*message) ==> mem(*message, q) == pay(c, totalFrameSize - len(body), q - off(*message) - c.gMLen))   // prop C12
 //@   ensures dlvkeep: ok && err == nil && message != nil && !ite(c.gType0 == 0, compress, c.gComp0) && !c.gClosed0 ==> (forall q int {mem(*message, q)} :: off(*message) <= q && q < off(*message) + c.gMLen ==> mem(*message, q) == c.gMRow[c.gMOff + q - off(*message)])   // prop C12
 //@   ensures ctlbody: ok && err == nil && protocolMessage != nil && !c.gClosed0 ==> len(*protocolMessage) == len(body) && (forall q int {mem(*protocolMessage, q)} :: off(*protocolMessage) <= q && q < off(*protocolMessage) + len(*protocolMessage) ==> mem(*protocolMessage, q) == pay(c, totalFrameSize - len(body), q - off(*protocolMessage)))   // prop C12
+//@   note acceptance (C13): a frame that passed nextFrame's validation is not rejected afterwards - the only later failure is the inflation of a complete compressed message (text is checked for UTF-8 on the assembled message, in handleWsMessage, never per frame: a code point may be split across fragments)
+//@   ensures accepts: ok && c.gNFOk && !c.gClosed0 && (isData(opcode) || isCtl(opcode)) && !(isData(opcode) && fin && ite(c.gType0 == 0, compress, c.gComp0) && c.messageHandler != nil) ==> err == nil   // prop C13
 //@   ensures ctlmsg: isProtocolMessage ==> ok && isCtl(opcode)                                                  // prop C13
 //@   ensures own: err == nil ==> (message != nil ==> liveP[message]) && (frame != nil ==> liveP[frame]) && (protocolMessage != nil ==> liveP[protocolMessage])   // prop C11
 //@   ensures size: err == nil && message != nil && limit(c) > 0 ==> len(*message) <= limit(c)                  // prop C15
@@ -191,8 +194,9 @@ package websocket
 //@   ensures apart: (message != nil && frame != nil ==> message != frame) && (isProtocolMessage ==> message == nil && frame == nil) && (protocolMessage != nil ==> isProtocolMessage)   // prop C11
 //@   ensures quiet: err == nil && !ok ==> message == nil && frame == nil && protocolMessage == nil && !isProtocolMessage
 //@   ensures ctlsize: err == nil && protocolMessage != nil ==> len(*protocolMessage) <= 125                    // prop C13 C15
-//@   assigns everything, c.gRCache, c.gRMsg, c.gRType, c.gRExp, c.gRComp, c.gExp0, c.gType0, c.gMsg0, c.gClosed0, c.gComp0, c.gCRow, c.gCLen, c.gCOff, c.gMRow, c.gMLen, c.gMOff
+//@   assigns everything, c.gRCache, c.gRMsg, c.gRType, c.gRExp, c.gRComp, c.gExp0, c.gType0, c.gMsg0, c.gClosed0, c.gComp0, c.gNFOk, c.gCRow, c.gCLen, c.gCOff, c.gMRow, c.gMLen, c.gMOff
 //@   at lock#1 ghost { c.gExp0 = c.expectingFragments; c.gType0 = c.msgType; c.gMsg0 = c.message; c.gClosed0 = c.closed; c.gComp0 = c.compress; c.gCRow = bytes_row(base(*c.bytesCached)); c.gCLen = buflenw(c.bytesCached); c.gCOff = off(*c.bytesCached); c.gMRow = bytes_row(base(*c.message)); c.gMLen = buflenw(c.message); c.gMOff = off(*c.message) }
+//@   at call:nextFrame#1 ghost { c.gNFOk = result3 && result6 == nil }
 //@ func (*Conn).Parse$2
 //@   inline
 
@@ -272,7 +276,7 @@ package websocket
 //@   params c w level
 //@   ensures result != nil
 //@   assigns allocates
-//@ pred SendKeeps(c *Conn) := WsWired(c) && c.Conn == old(c.Conn) && c.Engine == old(c.Engine) && gMsgH == old(gMsgH) && gCloseH == old(gCloseH) && gWsClose == old(gWsClose) && gErrFrames == old(gErrFrames) && (forall wb *writeBuffer :: wb.pbuf == old(wb.pbuf)) && c.Engine.MaxWebsocketFramePayloadSize == old(c.Engine.MaxWebsocketFramePayloadSize) && c.commonFields == old(c.commonFields) && c.closed == old(c.closed) && c.bytesCached == old(c.bytesCached) && c.message == old(c.message) && c.msgType == old(c.msgType) && c.expectingFragments == old(c.expectingFragments) && c.compress == old(c.compress) && holds(c.mux) == old(holds(c.mux))
+//@ pred SendKeeps(c *Conn) := WsWired(c) && c.Conn == old(c.Conn) && c.Engine == old(c.Engine) && gMsgH == old(gMsgH) && gCloseH == old(gCloseH) && gWsClose == old(gWsClose) && gErrFrames == old(gErrFrames) && gRenew == old(gRenew) && (forall wb *writeBuffer :: wb.pbuf == old(wb.pbuf)) && c.Engine.MaxWebsocketFramePayloadSize == old(c.Engine.MaxWebsocketFramePayloadSize) && c.commonFields == old(c.commonFields) && c.closed == old(c.closed) && c.bytesCached == old(c.bytesCached) && c.message == old(c.message) && c.msgType == old(c.msgType) && c.expectingFragments == old(c.expectingFragments) && c.compress == old(c.compress) && holds(c.mux) == old(holds(c.mux))
 //@ iface io.WriteCloser.Write
 //@   note a flate writer feeding a writeBuffer: allocates and grows buffers of its own only
 //@   ensures forall q int :: old(liveP[q]) ==> liveP[q]
@@ -294,7 +298,7 @@ package websocket
 //@   requires notdrainer: !c.gQTok
 //@   ensures ctlbig: isCtl(messageType) && len(data) > 125 ==> result != nil && c.gFrames == 0       // prop C15 C13
 //@   ensures unlocked: !holds(c.mux)                                                                  // prop C14
-//@   ensures counters: gMsgH == old(gMsgH) && gCloseH == old(gCloseH) && gWsClose == old(gWsClose) && gErrFrames == old(gErrFrames) && c.commonFields == old(c.commonFields) && c.Engine == old(c.Engine)
+//@   ensures counters: gMsgH == old(gMsgH) && gCloseH == old(gCloseH) && gWsClose == old(gWsClose) && gErrFrames == old(gErrFrames) && gRenew == old(gRenew) && c.commonFields == old(c.commonFields) && c.Engine == old(c.Engine)
 //@   assigns everything
 //@   at entry ghost { c.gFrames = 0; c.gW = 0; c.gWP = 0 }
 //@   note the compression buffer is this call's own: new, or grown by the compressor, never one of the reader's buffers
@@ -315,7 +319,7 @@ package websocket
 //@   loop 1
 //@     invariant holds(c.mux) && WsWired(c) && c.Engine.MaxWebsocketFramePayloadSize > 0 && len(data) >= 0 && c.Conn != nil
 //@     invariant isCtl(messageType) ==> len(data) <= 125
-//@     invariant gMsgH == old(gMsgH) && gCloseH == old(gCloseH) && gWsClose == old(gWsClose) && gErrFrames == old(gErrFrames) && c.commonFields == old(c.commonFields) && c.Engine == old(c.Engine)
+//@     invariant gMsgH == old(gMsgH) && gCloseH == old(gCloseH) && gWsClose == old(gWsClose) && gErrFrames == old(gErrFrames) && gRenew == old(gRenew) && c.commonFields == old(c.commonFields) && c.Engine == old(c.Engine)
 //@     invariant c.gFrames >= 0 && (c.gFrames > 0 ==> base(data) == c.gBase && off(data) == c.gEnd && c.gEnd + len(data) == c.gOff0 + c.gTotal) && (sendOpcode == (c.gFrames == 0)) && (sendCompress ==> c.gFrames == 0)
 //@     invariant !c.closed ==> WsOwn(c)
 //@     invariant !c.closed && SendQ(c) && !c.gQTok && (c.gQASnap ==> c.gQActive && c.gQNext == c.gQSnap) && (c.gWP != 0 ==> !c.gQIn[c.gWP] && c.gWP <= top)
@@ -417,22 +421,22 @@ package websocket
 //@   havoc
 //@   note user code: it does not rewire the connection it is called for
 //@   ensures c.commonFields == old(c.commonFields) && c.Engine == old(c.Engine) && c.Conn == old(c.Conn)
-//@   ensures gMsgH == old(gMsgH) + 1 && gCloseH == old(gCloseH) && gWsClose == old(gWsClose) && gErrFrames == old(gErrFrames)
+//@   ensures gMsgH == old(gMsgH) + 1 && gCloseH == old(gCloseH) && gWsClose == old(gWsClose) && gErrFrames == old(gErrFrames) && gRenew == old(gRenew)
 //@ fieldfunc nbhttp/websocket.commonFields.closeMessageHandler
 //@   havoc
 //@   note user code: it does not rewire the connection it is called for
 //@   ensures c.commonFields == old(c.commonFields) && c.Engine == old(c.Engine) && c.Conn == old(c.Conn)
-//@   ensures gCloseH == old(gCloseH) + 1 && gMsgH == old(gMsgH) && gWsClose == old(gWsClose) && gErrFrames == old(gErrFrames)
+//@   ensures gCloseH == old(gCloseH) + 1 && gMsgH == old(gMsgH) && gWsClose == old(gWsClose) && gErrFrames == old(gErrFrames) && gRenew == old(gRenew)
 //@ fieldfunc nbhttp/websocket.commonFields.pingMessageHandler
 //@   havoc
 //@   note user code: it does not rewire the connection it is called for
 //@   ensures c.commonFields == old(c.commonFields) && c.Engine == old(c.Engine) && c.Conn == old(c.Conn)
-//@   ensures gCloseH == old(gCloseH) && gMsgH == old(gMsgH) && gWsClose == old(gWsClose) && gErrFrames == old(gErrFrames)
+//@   ensures gCloseH == old(gCloseH) && gMsgH == old(gMsgH) && gWsClose == old(gWsClose) && gErrFrames == old(gErrFrames) && gRenew == old(gRenew)
 //@ fieldfunc nbhttp/websocket.commonFields.pongMessageHandler
 //@   havoc
 //@   note user code: it does not rewire the connection it is called for
 //@   ensures c.commonFields == old(c.commonFields) && c.Engine == old(c.Engine) && c.Conn == old(c.Conn)
-//@   ensures gCloseH == old(gCloseH) && gMsgH == old(gMsgH) && gWsClose == old(gWsClose) && gErrFrames == old(gErrFrames)
+//@   ensures gCloseH == old(gCloseH) && gMsgH == old(gMsgH) && gWsClose == old(gWsClose) && gErrFrames == old(gErrFrames) && gRenew == old(gRenew)
 //@ fieldfunc nbhttp.Engine.CheckUtf8
 //@   note utf8.Valid or a user replacement: a pure test
 //@   assigns allocates
@@ -448,12 +452,17 @@ package websocket
 //@ func (*Conn).SetReadDeadline
 //@   trusted
 //@   assigns allocates
+// read-deadline renewals made by the message handler
+//@ ghost gRenew : Int
 //@ func (*Conn).handleWsMessage$1
 //@   inline
+//@   note keep-alive (C16): every handled message renews the read deadline to now + KeepaliveTime (the literal is deferred only when KeepaliveTime > 0)
+//@   at before:SetReadDeadline#1 assert keepalive: clockv(inst(arg_t.wall, arg_t.ext) - c.KeepaliveTime)   // prop C16
+//@   at call:SetReadDeadline#1 ghost { gRenew = gRenew + 1 }
 //@ func (*Conn).handleWsMessage$2
 //@   inline
 //@ func (*Conn).handleWsMessage
-//@   props C13
+//@   props C13 C16
 //@   safety index slice nil div assert panic make
 //@   requires WsWired(c) && !holds(c.mux) && c.Engine.MaxWebsocketFramePayloadSize > 0 && c.Conn != nil && !c.gQTok
 //@   requires c != nil && c.commonFields != nil && c.Engine != nil && c.Engine.CheckUtf8 != nil && c.messageHandler != nil && c.closeMessageHandler != nil && c.pingMessageHandler != nil && c.pongMessageHandler != nil
@@ -464,6 +473,7 @@ package websocket
 //@   ensures closebadcode: opcode == CloseMessage && pData != nil && old(len(*pData)) >= 2 && !ValidCode(old((*pData)[0]) * 256 + old((*pData)[1])) ==> gCloseH == old(gCloseH) && gErrFrames == old(gErrFrames) + 1 && gWsClose == old(gWsClose) + 1   // prop C13
 //@   ensures closebadtext: opcode == CloseMessage && pData != nil && old(len(*pData)) >= 2 && ValidCode(old((*pData)[0]) * 256 + old((*pData)[1])) && !c.gUtfB ==> gCloseH == old(gCloseH) && gErrFrames == old(gErrFrames) + 1 && gWsClose == old(gWsClose) + 1   // prop C13
 //@   ensures closeok: opcode == CloseMessage && (pData == nil || old(len(*pData)) == 0 || (old(len(*pData)) >= 2 && ValidCode(old((*pData)[0]) * 256 + old((*pData)[1])) && c.gUtfB)) ==> gCloseH == old(gCloseH) + 1 && gErrFrames == old(gErrFrames) && gWsClose == old(gWsClose) + 1   // prop C13
+//@   ensures renewed: old(c.KeepaliveTime) > 0 ==> gRenew == old(gRenew) + 1   // prop C16
 //@   assigns everything
 //@   at entry ghost { c.gUtfA = true; c.gUtfB = true }
 //@   at call:CheckUtf8#1 ghost { c.gUtfA = result }
